@@ -86,7 +86,7 @@ def canonical_einsum(sig: str):
 
 def run(ck, ctx):
     ck.explanation = EXPLANATION
-    K = KernelCtx(ctx)
+    K = KernelCtx(ctx, watch=MODEL_METHODS)
     I = K.I
     g = I.g
     fn = "CphotAng.run"
@@ -249,6 +249,129 @@ def run(ck, ctx):
               "CphotAng.photon_sum", f"contractions: {sigs}")
     ck.guard(r065, "R06.5")
 
+    # ---------------------------------------------------------------- R06.7 formulas of the shower model
+    def r067():
+        from ..facets.poly import PolyFacet
+
+        def log_of(qual):
+            cs = [c for c in I.call_log if c[0].qualname == qual]
+            if not cs:
+                raise AnalysisError(f"{qual} is not reached from the kernel")
+            return cs
+
+        def facet(atoms):
+            P = PolyFacet(I, opaque_ids={n.id for n in atoms.values()}, gather_transparent=True)
+            P.stored_value = True
+            P.canon = lambda n: ("pi",) if (n.op in ("State", "Attr") and n.attr == "pi") else None
+            return P
+
+        def pi_env(P, env):
+            return env
+        n_f = 0
+        for qual, which, ref, roles, what in MODEL_FORMULAS:
+            for fi, site, loc, ret, pc in log_of(qual)[:1]:
+                atoms = {}
+                for role, src in roles.items():
+                    if src.startswith("self."):
+                        atoms[role] = I.res(I.load_attr(K.obj, src[5:], K.st, None, None), K.st)
+                    elif "[" in src:
+                        base, idx = src[:-1].split("[")
+                        atoms[role] = I.mk("Subscript", (I.res(loc[base], K.st), I.res(loc[idx], K.st)))
+                    else:
+                        atoms[role] = loc[src]
+                val = ret if which == "return" else I.elem(ret, int(which[7:-1]))
+                val = I.res(val, K.st)          # arrays updated in place: their final version
+                P = facet(atoms)
+                # the roles are matched by value (a parameter, its current version and a re-gathered copy are one)
+                keys = {g.vn(n) for n in atoms.values()} | {g.vn(I.res(n, K.st)) for n in atoms.values()}
+                P.opaque = (lambda n, _k=keys, _o=P.opaque: _o(n) or g.vn(n) in _k)
+                env = {role: P.of(I.res(n, K.st)) for role, n in atoms.items()}      # the version the body reads
+                env["pi"] = P.of(I.res(I.load_attr(K.obj, "pi", K.st, None, None), K.st))
+                try:
+                    want = _ref_with_pi(P, ref, env)
+                    ok = P.equal(P.of(val), want)
+                    detail = P.show(P.of(val))[:200]
+                except Exception as ex:           # noqa: BLE001 - a formula that cannot be normalised is undecided
+                    ok, detail = None, f"{type(ex).__name__}: {ex}"
+                n_f += 1
+                ck.ob("R06.7", f"{what}: {qual.split('.')[-1]} == {ref}", ok, val, qual, detail,
+                      construct=f"{qual}: {what}")
+        # the stored per-step arrays of valid_arrays
+        for fi, site, loc, ret, pc in log_of("CphotAng.valid_arrays")[:1]:
+            names = ["zs", "delgram", "ZonZ", "ThetPrpA", "AirN", "s", "RN", "e2hill"]
+            outs = {nm: I.elem(ret, k) for k, nm in enumerate(names)}
+            gramsum, gramz, Eshow = (I.res(loc[k], K.st) for k in ("gramsum", "gramz", "Eshow"))
+            ecrit = I.res(I.load_attr(K.obj, "ecrit", K.st, None, None), K.st)
+            # one gather mask for all eight arrays
+            masks = {g.vn(o.args[1]) for o in outs.values() if o.op == "Subscript"}
+            ck.ob("R06.7", "the eight per-step arrays of valid_arrays are gathered with one and the same mask",
+                  len(masks) == 1 and all(o.op == "Subscript" for o in outs.values()), ret, "CphotAng.valid_arrays",
+                  f"{len(masks)} distinct mask(s)")
+
+            def stored(arr):
+                x = arr.args[0] if arr.op == "Subscript" else arr
+                return I.res(x, K.st)
+            # y = ln(E / Ec)
+            ys = [n for n in walk([outs["RN"]]) if _fn(n, "log") and any(x is Eshow for x in walk([n])) and
+                  not any(x.op == "Scatter" for x in walk([n]))]
+            ok_y = False
+            if ys:
+                y = ys[0]
+                Py = PolyFacet(I, opaque_ids={Eshow.id, ecrit.id}, gather_transparent=True)
+                ok_y = Py.equal(Py.of(y), Py.ref("log(E/c)", {"E": Py.of(Eshow), "c": Py.of(ecrit)}))
+                ck.ob("R06.7", "Greisen y == ln(E / critical energy)", ok_y, y, "CphotAng.valid_arrays", Py.show(Py.of(y))[:160])
+            else:
+                ck.ob("R06.7", "Greisen y == ln(E / critical energy)", False, outs["RN"], "CphotAng.valid_arrays", "not found")
+                return
+            ycast = [n for n in walk([outs["RN"]]) if n.op == "Call" and len(n.args) == 2 and n.args[1] is y]
+            yn = ycast[0] if ycast else y
+            t_arr, s_arr = None, stored(outs["s"])
+            # t: the array stored from gramsum
+            P1 = PolyFacet(I, opaque_ids={gramsum.id}, gather_transparent=True)
+            P1.stored_value = True
+            want_t = P1.ref("X/36.66", {"X": P1.of(gramsum)})
+            cands = [n for n in walk([s_arr]) if n.op == "Scatter" and n is not s_arr and P1.equal(P1.of(n), want_t)]
+            ck.ob("R06.7", "shower depth t == traversed grammage / 36.66 g cm^-2 (radiation lengths), and the shower age "
+                  "is computed from it", len({g.vn(n) for n in cands}) == 1, s_arr, "CphotAng.valid_arrays",
+                  f"{len(cands)} array(s) in the cone of the age that equal gramsum / 36.66")
+            if not cands:
+                return
+            t_arr = cands[0]
+            t_ids = {n.id for n in walk([outs["RN"], s_arr]) if n.op == "Scatter" and g.same(n, t_arr)} | {t_arr.id}
+
+            def fac(extra_ids):
+                P = PolyFacet(I, opaque_ids=t_ids | {yn.id, y.id} | set(extra_ids), gather_transparent=True)
+                P.stored_value = True
+                return P
+            P2 = fac(())
+            e2 = {"t": P2.of(t_arr), "y": P2.of(yn)}
+            ck.ob("R06.7", "shower age s == 3 t / (t + 2 y)", P2.equal(P2.of(s_arr), P2.ref("3*t/(t + 2*y)", e2)), s_arr,
+                  "CphotAng.valid_arrays", P2.show(P2.of(s_arr))[:160])
+            s_ids = {n.id for n in walk([outs["RN"], outs["e2hill"]]) if n.op == "Scatter" and g.same(n, s_arr)} | {s_arr.id}
+            P3 = fac(s_ids)
+            e3 = {"t": P3.of(t_arr), "y": P3.of(yn), "s": P3.of(s_arr)}
+            ck.ob("R06.7", "Greisen profile: particle number == 0.31 / sqrt(y) exp[t (1 - 1.5 ln s)]",
+                  P3.equal(_bare(P3.of(stored(outs["RN"]))), P3.ref("0.31/sqrt(y)*exp(t*(1 - 1.5*log(s)))", e3)),
+                  outs["RN"], "CphotAng.valid_arrays", P3.show(P3.of(stored(outs["RN"])))[:200])
+            ck.ob("R06.7", "Hillas angular scale == 1150 + 454 ln s", P3.equal(_bare(P3.of(stored(outs["e2hill"]))),
+                  P3.ref("1150 + 454*log(s)", e3)), outs["e2hill"], "CphotAng.valid_arrays",
+                  P3.show(P3.of(stored(outs["e2hill"])))[:160])
+            P4 = PolyFacet(I, opaque_ids={gramz.id}, gather_transparent=True)
+            P4.stored_value = True
+            ck.ob("R06.7", "index of refraction == 1 + 0.000296 (X_v / 1032.9414) 273.2 / (204 + 0.091 X_v)",
+                  P4.equal(P4.of(stored(outs["AirN"])), P4.ref("1 + 0.000296*(X/1032.9414)*(273.2/(204 + 0.091*X))",
+                                                               {"X": P4.of(gramz)})), outs["AirN"],
+                  "CphotAng.valid_arrays", P4.show(P4.of(stored(outs["AirN"])))[:200])
+            n_f += 6
+        ecrit_v = I.res(I.load_attr(K.obj, "ecrit", K.st, None, None), K.st)
+        Pe = PolyFacet(I)
+        cz = Pe.of(ecrit_v).rat.is_const()
+        from fractions import Fraction
+        ck.ob("R06.7", "critical energy == 0.710 / (7.4 + 0.96) GeV", cz is not None and
+              abs(float(cz) - 0.710 / (7.4 + 0.96)) < 1e-9, ecrit_v, "CphotAng.__init__", f"{float(cz) if cz is not None else None}")
+        ck.floor("R06.7", n_f, 8, "model formulas compared with their references")
+    ck.guard(r067, "R06.7")
+
     # ---------------------------------------------------------------- R06.6 early exits
     def r066():
         def zero(x):
@@ -272,6 +395,30 @@ def run(ck, ctx):
     ck.guard(r066, "R06.6")
 
 
+MODEL_METHODS = ("CphotAng.valid_arrays", "CphotAng.tracklen", "CphotAng.e0", "CphotAng.cherenkov_threshold_angle",
+                 "CphotAng.sphoton_yeild", "CphotAng.d_to_det", "CphotAng.cherenkov_area", "CphotAng.theta_view",
+                 "CphotAng.theta_prop")
+
+# Reference formulas of the shower model named by the property (sources: K. Greisen, Prog. Cosmic Ray Phys. 3
+# (1956) - longitudinal profile N(t) = 0.31 / sqrt(y) exp[t (1 - 1.5 ln s)], s = 3 t / (t + 2 y), y = ln(E / Ec),
+# radiation length 36.66 g/cm^2, critical energy 0.710 / (Z + 0.96) GeV with Z = 7.4 for air;  A. M. Hillas,
+# J. Phys. G 8 (1982) 1461 eq. 6-8 - track-length fraction T(E) = [(0.89 E0 - 1.2) / (E0 + E)]^s (1 + 1e-4 s E)^-2,
+# E0 = 26 MeV for s < 0.4 else 44 - 17 (s - 1.46)^2, angular scale 1150 + 454 ln s;  Cherenkov threshold
+# 0.511 MeV / sqrt(1 - 1/n^2) and angle arccos(1/n);  Rayleigh transmission exp[-(X / 2974) (400 / lambda)^4]).
+MODEL_FORMULAS = [
+    # (method, which value, reference, {role: parameter or local name}, description)
+    ("CphotAng.tracklen", "return", "((0.89*E0 - 1.2)/(E0 + E))**s / (1 + 0.0001*s*E)**2",
+     {"E0": "E0", "E": "eCthres", "s": "s"}, "Hillas track-length fraction"),
+    ("CphotAng.cherenkov_threshold_angle", "return[0]", "0.511 / sqrt(1 - 1/n**2)", {"n": "AirN"},
+     "Cherenkov threshold energy (MeV)"),
+    ("CphotAng.cherenkov_threshold_angle", "return[1]", "arccos(1/n)", {"n": "AirN"}, "Cherenkov angle"),
+    ("CphotAng.d_to_det", "return", "sin(pi/2 - v - p) / sin(v) * (R + z)",
+     {"v": "ThetView", "p": "ThetPrpA", "z": "zs", "R": "self.RadE"}, "distance from the step to the detector"),
+    ("CphotAng.cherenkov_area", "return", "pi * (tan(a) * 1000 * D)**2", {"a": "AveCangI", "D": "DistStep[izRNmax]"},
+     "area of the Cherenkov ring at shower maximum (m^2)"),
+]
+
+
 def _strip_cast(n):
     while n.op == "Call" and len(n.args) == 2 and (n.args[0].op in ("Attr", "State") or (
             n.args[0].op == "Ext" and n.args[0].attr in ("numpy.float32", "numpy.float64", "builtins.float"))):
@@ -285,3 +432,16 @@ def _is_deg1(n):
     if is_ext_call(n, "numpy.radians", "numpy.deg2rad", "math.radians") and len(n.args) == 2:
         return _is_one(n.args[1])
     return False
+
+
+def _ref_with_pi(P, expr, env):
+    """reference formula where `pi` is the kernel's own constant"""
+    import re as _re
+    e2 = dict(env)
+    e2["PI"] = env["pi"]
+    return P.ref(_re.sub(r"\bpi\b", "PI", expr), e2)
+
+
+def _bare(v):
+    """the value without its zeroing conditions (negative parts floored at 0 and the like)"""
+    return type(v)(v.rat)
